@@ -12,7 +12,8 @@ pub struct C10;
 pub enum Case {
     /// expansion bound on an arbitrary input
     Expansion(LzInput),
-    /// effectiveness bound: `n` bytes repeating with period `p`; alphabet 0 = random bytes, 1 = {0,1}, 2 = constant
+    /// effectiveness bound: `n` bytes repeating with period `p`; alphabet 0 = random bytes, 1 = {0,1}, 2 = constant,
+    /// 3 = random bytes with an inner repeat (a record of ~300 bytes occurring twice inside one period)
     Periodic { p: u32, n: u32, alphabet: u8, seed: u64 },
 }
 
@@ -28,7 +29,15 @@ fn quick_periods() -> Vec<u32> {
 }
 
 fn periodic_bytes(p: u32, n: u32, alphabet: u8, seed: u64) -> Vec<u8> {
-    let pat = pattern(p as usize, seed, alphabet);
+    let mut pat = pattern(p as usize, seed, if alphabet == 3 { 0 } else { alphabet });
+    if alphabet == 3 && p >= 700 {
+        // copy a record of 273..=330 bytes from one place of the period to a later place
+        let rec = 273 + (seed % 58) as usize;
+        let from = (seed / 64) as usize % (p as usize / 2 - rec.min(p as usize / 2 - 1)).max(1);
+        let to = p as usize - rec - (seed / 4096) as usize % 8;
+        let chunk: Vec<u8> = pat[from..from + rec].to_vec();
+        pat[to..to + rec].copy_from_slice(&chunk);
+    }
     (0..n as usize).map(|i| pat[i % p as usize]).collect()
 }
 
@@ -47,7 +56,7 @@ impl Prop for C10 {
          len(LZ10(x)) <= 4 + n + ceil(n/8) and len(LZ13(x)) <= 8 + n + ceil(n/8). Effectiveness clause: for n bytes repeating with period p (n > p, p <= 4096) \
          len(out) <= H + (p+2) + r*R + ceil((p+2+r)/8), r = ceil((n-p)/L)+1, (H,L,R) = (4,18,2) for LZ10 and (8,4096,4) for LZ13 - the statement's formula verbatim. \
          Periods: ~55 values in quick (1..=20, around 256/512/1024/2048, 4088..=4096) and all of 1..=4096 in thorough, x lengths {p+1,p+3,p+18,p+19,2p,3p+5,p+4096,p+4097,p+10000} \
-         x patterns {random bytes, bytes over {0,1}, constant}; plus random (p,n,pattern). Non-trivial: periodic case with n >= p+3 and (p >= 2049 or n-p >= L), i.e. the case needs \
+         x patterns {random bytes, bytes over {0,1}, constant}; plus random (p,n,pattern); plus periods 1100/2198/3000/4096 whose pattern contains an inner repeat of 273..330 bytes on inputs of 60 000 and 600 000 bytes (thorough: up to 1 500 000). Non-trivial: periodic case with n >= p+3 and (p >= 2049 or n-p >= L), i.e. the case needs \
          the far half of the window or a maximal-length match. Distinct = distinct case value."
             .into()
     }
@@ -82,6 +91,19 @@ impl Prop for C10 {
                 for alphabet in 0u8..3 {
                     if idx % nshards == shard {
                         if !f(Case::Periodic { p, n, alphabet, seed: 0xC10 + p as u64 * 31 + alphabet as u64 }) {
+                            return;
+                        }
+                    }
+                    idx += 1;
+                }
+            }
+        }
+        // periods with an inner repeat, on long inputs (a match finder that settles for a partial match loses ground slowly)
+        for (k, p) in [1100u32, 2198, 3000, 4096].iter().enumerate() {
+            for n in tier.pick(vec![60_000u32, 600_000], vec![60_000, 200_000, 600_000, 1_500_000]) {
+                for s in 0..tier.pick(2u64, 6) {
+                    if idx % nshards == shard {
+                        if !f(Case::Periodic { p: *p, n, alphabet: 3, seed: 0x1A2B_3C00 + 7919 * s + k as u64 * 131 }) {
                             return;
                         }
                     }
